@@ -60,6 +60,22 @@ def case(draw, depth):
         e = draw(S.int_expr(ctx, depth))
     else:
         e = draw(S.num_expr(ctx, depth, kind))
+    if kind == "any" and draw(st.integers(0, 9)) == 0:
+        # a complex value with a tiny imaginary (or real) part, possibly scaled back up
+        tc = draw(S.tiny_complex())
+        e = A.Flat([A.Operand("", tc)], []) if draw(st.booleans()) else \
+            A.Flat([A.Operand("", tc), A.Operand("", A.Num("float", draw(st.sampled_from(["1e15", "3e20", "2.5e13"]))))], ["*"])
+    if kind != "int" and draw(st.integers(0, 9)) == 0:
+        # integers beyond 2**53 that nearly cancel, in one +/- chain with a float term: integer arithmetic must stay exact
+        n = draw(st.integers(2 ** 53, 2 ** 62))
+        d = draw(st.integers(1, 9))
+        fl = draw(S.num_float())
+        chain = [A.Operand("", A.Num("int", str(n + d))), A.Operand("", A.Num("int", str(n))), A.Operand("", fl)]
+        ops_ = ["-", draw(st.sampled_from(["+", "-"]))]
+        if draw(st.booleans()):
+            chain = [chain[2], chain[0], chain[1]]
+            ops_ = ["+", "-"]
+        e = A.Flat(chain + e.operands[:1], ops_ + ["+"]) if draw(st.booleans()) else A.Flat(chain, ops_)
     if redecl is not None:
         e = A.Flat([A.Operand("", draw(S.index_of(ctx, redecl)))] + e.operands, [draw(st.sampled_from(["+", "-", "*"]))] + e.ops)
     gaps = draw(st.lists(st.integers(0, 2), min_size=1, max_size=6))
@@ -285,6 +301,18 @@ def check(c):
                                             "%s argument: %s\nscript:\n%s" % (label, m.msg, text),
                                             refine=lambda: localise(c)))
             return out
+    # every declared numeric scalar holds its reference value (declaration path)
+    for d in c["decls"]:
+        if isinstance(d, A.ScalarDecl) and d.name in ref.variables and isinstance(ref.variables[d.name], N.V) and \
+                [x.name for x in c["decls"] if isinstance(x, (A.ScalarDecl, A.ArrayDecl))].count(d.name) == 1:
+            try:
+                m = VC.num_matches(ref.variables[d.name], p.variables.get(d.name), 1e-12, strict_int=True)
+            except VC.IllConditioned:
+                m = None
+            if m is not None:
+                out.violations.append(Violation("declared-variable|%s|%s" % (d.vtype, m.cls),
+                                                "variable %s: %s\nscript:\n%s" % (d.name, m.msg, text)))
+                return out
     # the variable initialiser path: stored as complex(value)
     try:
         m = VC.num_matches(N.cast("complex", rv), a_var, 1e-12, strict_int=False)
